@@ -251,17 +251,17 @@ def clone_part(ctx):
         if mode == 'swap': mask &= ~(1 << FBIT['nested'])
         if mode == 'cycle':
             cases.append((klass, feats, P, root, mode, ALL, use_map, 'run cycle:%d:%d %d %d %s' % (mask, split, use_map, dumps, P.tokens()))); return
-        m = mode if mode in ('clone', 'oldclone') else ('%s:%d:%d' % (mode, mask, split) if mode == 'swap' else '%s:%d' % (mode, mask))
-        cases.append((klass, feats, P, root, mode, mask if mode not in ('clone', 'oldclone') else ALL, use_map, 'run %s %d %d %s' % (m, use_map, dumps, P.tokens())))
+        m = mode if mode in ('clone', 'oldclone', 'clonews', 'clonet', 'clonetws') else ('%s:%d:%d' % (mode, mask, split) if mode == 'swap' else '%s:%d' % (mode, mask))
+        cases.append((klass, feats, P, root, mode, mask if mode not in ('clone', 'oldclone', 'clonews', 'clonet', 'clonetws') else ALL, use_map, 'run %s %d %d %s' % (m, use_map, dumps, P.tokens())))
 
     def overlapping_string_vector():
         """hand-made VERIFIED Node buffer in which the [ubyte] field `bytes` lies inside the string `name`: the vector's
         length field is the first four characters of the string, so the vector's map key (vec - 4) is the string pointer"""
         import struct
         vt = struct.pack('<HH', 30, 12) + b''.join(struct.pack('<H', {1: 4, 12: 8}.get(i, 0)) for i in range(13))
-        b = struct.pack('<I', 36) + vt + b'\0\0'                     # root offset, vtable at 4..34, pad
-        b += struct.pack('<iII', 32, 8, 8)                             # table at 36: soffset to vtable, name -> 48, bytes -> 52
-        b += struct.pack('<I', 5) + bytes([1, 0, 0, 0, 65, 0]) + b'\0\0'   # string at 48: len 5, chars "\1\0\0\0A", NUL; vector at 52: len 1, [65]
+        b = struct.pack('<I', 40) + b'CT18' + vt + b'\0\0'           # root offset, file identifier, vtable at 8..38, pad
+        b += struct.pack('<iII', 32, 8, 8)                             # table at 40: soffset to vtable, name -> 52, bytes -> 56
+        b += struct.pack('<I', 5) + bytes([1, 0, 0, 0, 65, 0]) + b'\0\0'   # string at 52: len 5, chars "\1\0\0\0A", NUL; vector at 56: len 1, [65]
         return b
 
     def family(klass, feats, nprog, sizes):
@@ -269,6 +269,8 @@ def clone_part(ctx):
             P, root = gen_prog(rng, rng.choice(sizes), feats)
             for use_map in (1, 0):
                 add_case(klass, feats, P, root, 'clone', ALL, use_map)
+            for mode in ('clonews', 'clonet', 'clonetws'):       # every generated root entry point, matching verifier and accessor
+                add_case(klass, feats, P, root, mode, ALL, rng.choice([1, 0]))
             for mode in ('pick', 'fclone', 'vec'):
                 for mask in (ALL, rng.getrandbits(len(FIELDS)), 1 << rng.randrange(len(FIELDS))):
                     add_case(klass, feats, P, root, mode, mask, rng.choice([1, 1, 0]))
@@ -305,6 +307,8 @@ def clone_part(ctx):
     add_case('nested8', {'nested8'}, P, n, 'clone', ALL, 0)
     P = Prog(); s0 = P.add('S', '6869'); lf = P.add('LF', 'name=0,val=3', [s0]); n1 = P.add('N', 'id=1,name=0,leaf=1', (), {'name': [s0], 'leaf': [lf]})
     n2 = P.add('N', 'id=2,name=0,left=2,right=2,leaf=1', (), {'name': [s0], 'left': [n1], 'right': [n1], 'leaf': [lf]})
+    for mode in ('clonews', 'clonet', 'clonetws'):
+        for use_map in (1, 0): add_case('root_entry_points', set(), P, n2, mode, ALL, use_map)
     for lvl in (1, 2):
         for use_map in (1, 0): add_case('nested_clone', set(), P, n2, 'nest', lvl, use_map)
     for ek in (1, 0):
@@ -446,7 +450,7 @@ def clone_part(ctx):
                                kv.get('cyc'), kv.get('dstv'), kv.get('val'), kv.get('share'), kv.get('same'), kv.get('mapreset')) + what_extra, rep)
             continue
         if 'failed' in kv:
-            viol('failed', 'clone/pick of a verified buffer fails (returns %s) (%s, refmap %d)' % (kv['failed'], mode, use_map)); continue
+            viol('failed', 'clone/pick of a verified buffer fails (returns %s%s) (%s, refmap %d)' % (kv['failed'], ': the matching as_[typed_]root accessor returns null for the copy' if kv['failed'] == '-9' else '', mode, use_map)); continue
         if kv.get('dstv') != '0':
             viol('verify', 'the copy does not verify: %s (%s, refmap %d)' % (r.split(' size=')[0][:120], mode, use_map)); continue
         if kv.get('api', '0') != '0':
@@ -462,7 +466,7 @@ def clone_part(ctx):
                 viol('sharing', 'with a reference map the copy does not share what the source shares: back references %s in the source, %s in the copy (%s)'
                      % (kv.get('back_src'), kv.get('back_dst'), mode)); continue
             if mode == 'nest': mask = ALL
-            want = len(P.reachable_keys(root, mask, include_root=(mode in ('clone', 'nest'))))
+            want = len(P.reachable_keys(root, mask, include_root=(mode in ('clone', 'nest', 'clonews', 'clonet', 'clonetws'))))
             if mode.startswith('old'): want = int(kv.get('map', -1))      # objects behind unknown members are not visited
             if int(kv.get('map', -1)) != want:
                 viol('memo', 'reference map holds %s entries after the clone, the source has %d distinct reachable objects (%s)' % (kv.get('map'), want, mode)); continue
